@@ -125,6 +125,16 @@ def build(cfg):
             se_ = StrainEnergy()
             se_.setConstantElasticEnergy(float(p["strainE"]))
             m.setStrainEnergy(se_, p["name"])
+        if "strainAR" in p:    # aspect ratio of every size class from the elastic strain energy (calculateAspectRatio): (shape kind, eigenstrain, G, nu)
+            from kawin.precipitation import StrainEnergy
+            kind, eig, G_, nu_ = p["strainAR"]
+            m.setPrecipitateShape(kind, p["name"])
+            se_ = StrainEnergy()
+            se_.setEigenstrain(list(eig))
+            se_.setModuli(G=G_, nu=nu_)
+            se_.setShape("ellipsoid")
+            se_.setAspectRatioResolution(0.05, 5)
+            m.setStrainEnergy(se_, p["name"], calculateAspectRatio=True)
         if "shape" in p:       # (kind, aspect ratio) -- a number, or ("linear", a0, slope per nm) for a size dependent aspect ratio
             kind, ar = p["shape"]
             if isinstance(ar, (list, tuple)):
